@@ -134,8 +134,8 @@ __CPROVER_requires(sm->m_active_state_ids[region_id]==CUR)                /* WF:
 __CPROVER_requires(g_act[g_cur]==1 && (NXT==CUR || g_act[g_nxt]==0))      /* WF ledger (C03) */
 __CPROVER_assigns(g_phase, g_exc, g_guard_calls, sm->m_active_state_ids[region_id], g_act[g_cur], g_act[g_nxt])
 __CPROVER_ensures((g_src_is_exit_pt && !g_exit_active) ==> (__CPROVER_return_value==HANDLED_FALSE && g_phase==0 && g_guard_calls==0 && sm->m_active_state_ids[region_id]==CUR))  /*@ob C09,C01,C02.exit-point-row-inert-while-inactive */
-__CPROVER_ensures((!g_exc && __CPROVER_return_value==HANDLED_GUARD_REJECT) ==> (g_phase==0 && sm->m_active_state_ids[region_id]==CUR && g_act[g_cur]==1))                        /*@ob C02,C03,C01.rejected-guard-changes-nothing */
-__CPROVER_ensures((!g_exc && (__CPROVER_return_value==HANDLED_TRUE || __CPROVER_return_value==HANDLED_DEFERRED)) ==> g_phase==5)                                               /*@ob C02,C03.taken-runs-exit-action-entry */
+__CPROVER_ensures((!g_exc && __CPROVER_return_value==HANDLED_GUARD_REJECT) ==> (g_phase==0 && sm->m_active_state_ids[region_id]==CUR && g_act[g_cur]==1))                        /*@ob C02,C03,C01,C06.rejected-guard-changes-nothing */
+__CPROVER_ensures((!g_exc && (__CPROVER_return_value==HANDLED_TRUE || __CPROVER_return_value==HANDLED_DEFERRED)) ==> g_phase==5)                                               /*@ob C02,C03,C06.taken-runs-exit-action-entry */
 __CPROVER_ensures((!g_exc && (__CPROVER_return_value==HANDLED_TRUE || __CPROVER_return_value==HANDLED_DEFERRED)) ==> sm->m_active_state_ids[region_id]==NXT)                   /*@ob C19,C03,C02.after-transition-target-is-active */
 __CPROVER_ensures((!g_exc && (__CPROVER_return_value==HANDLED_TRUE || __CPROVER_return_value==HANDLED_DEFERRED)) ==> (g_act[g_nxt]==1 && (NXT==CUR || g_act[g_cur]==0)))        /*@ob C03,C02.ledger-agrees-with-active-state */
 __CPROVER_ensures(!g_exc ==> (__CPROVER_return_value==HANDLED_TRUE || __CPROVER_return_value==HANDLED_DEFERRED || __CPROVER_return_value==HANDLED_GUARD_REJECT || __CPROVER_return_value==HANDLED_FALSE))
@@ -148,7 +148,7 @@ __CPROVER_requires(__CPROVER_is_fresh(sm,sizeof(*sm)) && region_id<NR_CAP)
 __CPROVER_requires(g_phase==0 && !g_exc && g_guard_calls==0)
 __CPROVER_requires(ROW_SM_INTERNAL || sm->m_active_state_ids[region_id]==CUR)
 __CPROVER_assigns(g_phase, g_exc, g_guard_calls)                                                     /*@ob C02,C03.internal-row-frame */
-__CPROVER_ensures((!g_exc && __CPROVER_return_value==HANDLED_GUARD_REJECT) ==> g_phase==0)           /*@ob C02,C03,C01.rejected-guard-changes-nothing */
-__CPROVER_ensures((!g_exc && __CPROVER_return_value!=HANDLED_GUARD_REJECT) ==> (g_phase==3 && (__CPROVER_return_value==HANDLED_TRUE || __CPROVER_return_value==HANDLED_DEFERRED)))  /*@ob C02,C01.internal-row-guard-then-action */
+__CPROVER_ensures((!g_exc && __CPROVER_return_value==HANDLED_GUARD_REJECT) ==> g_phase==0)           /*@ob C02,C03,C01,C06.rejected-guard-changes-nothing */
+__CPROVER_ensures((!g_exc && __CPROVER_return_value!=HANDLED_GUARD_REJECT) ==> (g_phase==3 && (__CPROVER_return_value==HANDLED_TRUE || __CPROVER_return_value==HANDLED_DEFERRED)))  /*@ob C02,C01,C06.internal-row-guard-then-action */
 __CPROVER_ensures(g_guard_calls <= 1)                                                                /*@ob C01,C02.guard-at-most-once */
 ;
